@@ -474,9 +474,43 @@ pub fn run_c11(tier: &str, seed: u64, shard: usize, of: usize, only_job: Option<
 fn c11_case(b: &Board, spec: &PosSpec, depth: u8, job: usize, ev: &SimpleEvaluator, distinct: &mut std::collections::HashSet<u64>) {
     verif_hooks::TT_OFF.store(true, Ordering::Relaxed);
     clear_tt();
+    verif_hooks::audit_start();
     let r = engine_search(b, None, Some(depth));
+    let audit = verif_hooks::audit_take();
     verif_hooks::TT_OFF.store(false, Ordering::Relaxed);
     let replay = format!("{{\"kind\":\"c11\",{},\"depth\":{},\"job\":{}}}", spec.json(), depth, job);
+    // the look-ahead game itself, asserted at every node the real search visits: only legal moves
+    // are played, and a side in check is never handed to the capture search (it gets its extra ply)
+    out::count("C11.audited_search_moves", audit.moves);
+    out::count("C11.audited_horizon_nodes", audit.horizons);
+    if audit.illegal_moves > 0 {
+        out::violation(
+            "C11",
+            "search-plays-illegal-move",
+            format!(
+                "depth {depth}: the search made {} move(s) that leave the mover's own king attacked (of {} moves audited), first {}; on {}",
+                audit.illegal_moves,
+                audit.moves,
+                audit.first_illegal.clone().unwrap_or_default().replace('\n', " / "),
+                spec.text()
+            ),
+            replay.clone(),
+        );
+    }
+    if audit.horizons_in_check > 0 {
+        out::violation(
+            "C11",
+            "in-check-node-sent-to-capture-search",
+            format!(
+                "depth {depth}: {} node(s) with the side to move in check were handed to the capture search without the extra ply (of {} horizon nodes), first {}; on {}",
+                audit.horizons_in_check,
+                audit.horizons,
+                audit.first_horizon_in_check.clone().unwrap_or_default().replace('\n', " / "),
+                spec.text()
+            ),
+            replay.clone(),
+        );
+    }
     if let Some(p) = &r.panicked {
         out::violation(
             "C11",
@@ -1007,7 +1041,10 @@ fn c13_compare(
 fn c13_cut(b: &Board, spec: &PosSpec, depth: u8, job: usize, n: u64, f_log: &[TtEvent], distinct_cuts: &mut u64) {
     clear_tt();
     verif_hooks::tt_record_start();
-    let r = engine_search(b, Some(SearchLimits::new().nodes(Some(n))), Some(depth));
+    // every other budget also carries the depth limit inside the limits, the way `go depth D nodes N`
+    // builds them (the iteration loop gets the same depth either way)
+    let limits = if n % 2 == 1 { SearchLimits::new().nodes(Some(n)).depth(Some(depth)) } else { SearchLimits::new().nodes(Some(n)) };
+    let r = engine_search(b, Some(limits), Some(depth));
     let s_log = verif_hooks::tt_record_take();
     let s_table = tt_snapshot();
     if r.panicked.is_some() {
